@@ -196,7 +196,7 @@ func c12freshName(c *core.Check) {
 		var store ast.Node
 		ast.Inspect(fd.Body, func(nd ast.Node) bool {
 			if as, ok := nd.(*ast.AssignStmt); ok && len(as.Lhs) == 1 {
-				if ix, ok := as.Lhs[0].(*ast.IndexExpr); ok && rules.ExprString(ix.X) == "fm.index" && rules.ExprString(ix.Index) == k {
+				if ix, ok := as.Lhs[0].(*ast.IndexExpr); ok && rules.ExprString(ix.X) == recvNameOf(fd, "fm")+".index" && rules.ExprString(ix.Index) == k {
 					store = as
 				}
 			}
@@ -210,7 +210,7 @@ func c12freshName(c *core.Check) {
 		okVars := map[string]bool{}
 		ast.Inspect(fd.Body, func(nd ast.Node) bool {
 			if as, ok := nd.(*ast.AssignStmt); ok && len(as.Lhs) == 2 && len(as.Rhs) == 1 {
-				if ix, ok := as.Rhs[0].(*ast.IndexExpr); ok && rules.ExprString(ix.X) == "fm.index" && rules.ExprString(ix.Index) == k {
+				if ix, ok := as.Rhs[0].(*ast.IndexExpr); ok && rules.ExprString(ix.X) == recvNameOf(fd, "fm")+".index" && rules.ExprString(ix.Index) == k {
 					okVars[rules.ExprString(as.Lhs[1])] = true
 				}
 			}
